@@ -1588,6 +1588,16 @@ impl Linearizer {
     /// * `Err(LinearizationError)` - If linearization fails
     pub fn linearize(model: Model) -> Result<LinearModel, LinearizationError> {
         let (objective, constraints, mut domain) = model.into_components();
+        // a model built through the API is held to the rule the text front end
+        // applies to `define` declarations
+        for (name, variable) in &domain {
+            if let Err(reason) = variable.get_type().validate_range() {
+                return Err(LinearizationError::InvalidDomain {
+                    variable: name.clone(),
+                    reason,
+                });
+            }
+        }
         // bounds are inferred from the normalized rows, so that the spelling of a
         // constant (`x / -2`, `(0 - 2) * x`, a named constant) does not decide
         // whether a bound is found
@@ -1727,11 +1737,16 @@ pub enum LinearizationError {
         upper: f64,
         variables: Vec<String>,
     },
+    /// The declared range of a variable is not a valid domain
+    InvalidDomain { variable: String, reason: String },
 }
 
 impl Display for LinearizationError {
     fn fmt(&self, f: &mut std::fmt::Formatter<'_>) -> std::fmt::Result {
         match self {
+            LinearizationError::InvalidDomain { variable, reason } => {
+                write!(f, "Invalid domain of variable \"{}\": {}", variable, reason)
+            }
             LinearizationError::NonLinearExpression(exp) => {
                 write!(f, "Non linear expression: \"{}\"", exp)
             }
